@@ -534,6 +534,21 @@ Proof. vm_compute. split; reflexivity. Qed.
 Lemma cell_agree_null_l : forall d, cell_agree DNull d = match d with DNull => true | _ => false end.
 Proof. destruct d; reflexivity. Qed.
 
+Lemma f64_int_value_finite : forall b y, f64_int_value b = Some y -> f64_finite b = true.
+Proof. intros b y H. unfold f64_int_value in H. destruct (f64_finite b); [reflexivity|discriminate]. Qed.
+
+(** an Int64 cell of a Float column (both Arrow conversions write [z as f64]) agrees with the JSON
+    integer exactly when the conversion is exact *)
+Lemma int_in_float_agree : forall z,
+  (cell_agree (DInt z) (DFloat (f64_of_Z z)) && cell_agree (DInt z) (DFloat (f64_of_Z z)) &&
+   cell_agree (DFloat (f64_of_Z z)) (DFloat (f64_of_Z z)) && cell_agree (DInt z) (DInt z)) = int_exact_in_f64 z.
+Proof.
+  intro z. unfold int_exact_in_f64. cbn [cell_agree].
+  destruct (f64_int_value (f64_of_Z z)) as [y|] eqn:E; [|reflexivity].
+  rewrite (f64_eq_refl _ (f64_int_value_finite _ _ E)), Z.eqb_refl, !andb_true_r, (Z.eqb_sym y z).
+  destruct (z =? y)%Z; reflexivity.
+Qed.
+
 (** [known_class] is exact: a cell decodes alike from every encoding if and only if it lies outside
     all eight classes. *)
 Theorem known_class_exact : forall lt v,
@@ -542,6 +557,7 @@ Proof.
   intros lt v. unfold known_class, cell_all_agree, arrow_cell, text_cell. change (arrow_type_batch lt) with (arrow_type_schema lt).
   destruct (arrow_type_schema lt), v as [|b|z|bits disp|z|s [c|] fl|b];
     cbn [known_class_t mismatch_class json_cell arrow_cell_whole arrow_cell_row]; flags;
+    try (cbn [andb]; rewrite int_in_float_agree; destruct (int_exact_in_f64 z); split; intro H; try reflexivity; discriminate);
     cbn [cell_agree to_string_repr opt_int andb];
     rewrite ?Z.eqb_refl, ?eqb_reflx, ?bytes_eqb_refl, ?andb_false_r; cbn [andb];
     try (split; [reflexivity|discriminate] || (intros; discriminate));
@@ -574,23 +590,31 @@ Theorem agree_refuted :
   cell_all_agree s_string (SUtf8 [91;49;44;50;93] (Some [91;49;44;50;93]) None) = false /\
   cell_all_agree s_float (SFloat nan_bits [78;97;78]) = false /\
   cell_all_agree s_integer (SFloat 4609434218613702656 [49;46;53]) = false /\
-  cell_all_agree s_float (SInt 1) = false /\
+  cell_all_agree s_float (SInt 9007199254740993) = false /\
   cell_all_agree s_boolean (SInt 1) = false /\
   cell_all_agree s_string (SInt 1) = false.
 Proof. vm_compute. repeat split; reflexivity. Qed.
 
-(** the two Arrow conversions disagree with each other: digits in an Integer column, an integer in a
-    Float column, a boolean word in a Boolean column *)
+(** the two Arrow conversions disagree with each other: digits in an Integer column, a boolean word
+    in a Boolean column *)
 Theorem arrow_paths_disagree_refuted :
   cell_agree (arrow_cell PWhole s_integer (SUtf8 [52;50] None (Some 4631107791820423168)))
              (arrow_cell PRow s_integer (SUtf8 [52;50] None (Some 4631107791820423168))) = false /\
   arrow_cell PWhole s_integer (SUtf8 [52;50] None (Some 4631107791820423168)) = DInt 42 /\
   arrow_cell PRow s_integer (SUtf8 [52;50] None (Some 4631107791820423168)) = DNull /\
-  arrow_cell PWhole s_float (SInt 1) = DNull /\
-  arrow_cell PRow s_float (SInt 1) = DFloat 4607182418800017408 /\
   arrow_cell PWhole s_boolean (SUtf8 [116;114;117;101] None None) = DBool true /\
   arrow_cell PRow s_boolean (SUtf8 [116;114;117;101] None None) = DNull.
 Proof. vm_compute. repeat split; reflexivity. Qed.
+
+(** after fix fba8206 the two conversions agree on every Int64 cell of a Float column *)
+Theorem arrow_paths_agree_int_in_float : forall lt z,
+  arrow_type_schema lt = AFloat64 ->
+  arrow_cell PWhole lt (SInt z) = arrow_cell PRow lt (SInt z) /\
+  arrow_cell PWhole lt (SInt z) = DFloat (f64_of_Z z).
+Proof.
+  intros lt z H. unfold arrow_cell. change (arrow_type_batch lt) with (arrow_type_schema lt). rewrite H.
+  cbn [arrow_cell_whole arrow_cell_row]. flags. split; reflexivity.
+Qed.
 
 (** a whole response: one Integer column, one row holding the string "18446744073709551615" *)
 Theorem responses_agree_refuted :
@@ -702,68 +726,114 @@ Proof.
   destruct s; vm_compute (dec_of_N (status_code _)); vm_compute (status_code _); cbn [app]; reflexivity.
 Qed.
 
-(** the text rendering never starts with '{', so the dispatcher answers every text error with 200 *)
-Lemma http_text_always_200 : forall s msg, http_status_of_error EText s msg = 200.
+(** ** The HTTP status derived from the body (after fix c214409) *)
+
+(** the text rendering starts with its three status digits and a blank: the dispatcher answers a
+    text error of any length with its own status *)
+Theorem http_text_status_correct : forall s msg, http_status_of_error EText s msg = status_code s.
 Proof.
   intros s msg. unfold http_status_of_error, render_error.
-  destruct s; vm_compute (dec_of_N (status_code _)); cbn [app]; reflexivity.
+  destruct s; vm_compute (dec_of_N (status_code _)); cbn [app]; vm_compute; reflexivity.
 Qed.
 
-Lemma has_window_here : forall w s f, is_prefix w s = true -> (length w <= length s)%nat -> s <> [] ->
-  has_window w s (S f) = true.
+Lemma has_window_app : forall w pre s fuel,
+  is_prefix w s = true -> (length w <= length s)%nat -> s <> [] -> (length pre < fuel)%nat ->
+  has_window w (pre ++ s) fuel = true.
 Proof.
-  intros w s f Hp Hl Hs. destruct s as [|c r]; [contradiction|]. cbn [has_window].
-  rewrite Hp. apply Nat.leb_le in Hl. rewrite Hl. reflexivity.
+  intros w pre. induction pre as [|x pre IH]; intros s fuel Hp Hl Hs Hf.
+  - destruct fuel as [|f]; [lia|]. destruct s as [|c r]; [contradiction|]. cbn [app has_window].
+    rewrite Hp. apply Nat.leb_le in Hl. rewrite Hl. reflexivity.
+  - destruct fuel as [|f]; [cbn in Hf; lia|]. cbn [app has_window]. rewrite (IH s f Hp Hl Hs); [apply orb_true_r|cbn in Hf; lia].
 Qed.
 
-(** a JSON error body shorter than the full-parse limit yields its own status *)
+Lemma firstn_length_all : forall (A : Type) (l : list A), firstn (N.to_nat (N.of_nat (length l))) l = l.
+Proof. intros. rewrite Nnat.Nat2N.id. apply firstn_all. Qed.
+
+(** a JSON or Arrow-fallback error body below the full-parse limit yields its own status *)
 Lemma http_json_short : forall s msg,
   N.of_nat (length (render_error EJson s msg)) < render_http_parse_full_below ->
   http_status_of_error EJson s msg = status_code s.
 Proof.
   intros s msg Hlen. unfold http_status_of_error.
-  assert (Hw : has_window status_word (firstn (N.to_nat render_http_sniff_window) (render_error EJson s msg))
-                 (length (firstn (N.to_nat render_http_sniff_window) (render_error EJson s msg))) = true).
-  { unfold render_error. destruct s; vm_compute (dec_of_N (status_code _)); vm_compute (N.to_nat render_http_sniff_window);
-      unfold js_head; cbn [app firstn length]; reflexivity. }
-  unfold render_error in *. unfold js_head in *. cbn [app] in *. rewrite Hw. cbn [negb].
-  apply N.ltb_lt in Hlen. rewrite Hlen. destruct s; vm_compute; reflexivity.
+  set (out := render_error EJson s msg) in *.
+  assert (Hout : out = [123;34;99;111;117;110;116;34;58;48;44;34] ++ (status_word ++ skipn 18 out)).
+  { unfold out, render_error, js_head. cbn [app skipn]. reflexivity. }
+  destruct out as [|c r] eqn:Eo; [discriminate|].
+  assert (Hc : c = 123) by (inversion Hout; reflexivity). subst c. cbn [N.eqb Pos.eqb negb].
+  apply N.ltb_lt in Hlen. rewrite Hlen. unfold render_http_sniff_window.
+  rewrite firstn_length_all. rewrite Hout at 1 2.
+  rewrite has_window_app; [|reflexivity|cbn; lia|discriminate|rewrite app_length; cbn; lia].
+  cbn [negb]. destruct s; vm_compute; reflexivity.
 Qed.
 
-(** "Error responses carry the same status code in every encoding" is false at the HTTP layer:
-    [400 "hi"] is answered with 400 under the JSON renderer and with 200 under the text renderer;
-    a 404 whose message has more than six bytes is answered with 200 under the Arrow renderer. *)
-Theorem http_status_same_refuted :
-  http_status_same StBadRequest [104;105] = false /\
-  http_status_of_error EJson StBadRequest [104;105] = 400 /\
-  http_status_of_error EText StBadRequest [104;105] = 200 /\
-  http_status_of_error EJson StNotFound [110;111;32;115;117;99;104;32;116;121;112;101] = 404 /\
-  http_status_of_error EArrow StNotFound [110;111;32;115;117;99;104;32;116;121;112;101] = 200.
-Proof. vm_compute. repeat split; reflexivity. Qed.
-
-(** every error status with a message that keeps the JSON body short is affected *)
-Theorem http_status_differs_for_short_errors : forall s msg,
-  s <> StOk -> N.of_nat (length (render_error EJson s msg)) < render_http_parse_full_below ->
-  http_status_of_error EJson s msg <> http_status_of_error EText s msg.
+Lemma http_arrow_short : forall s msg,
+  N.of_nat (length (render_error EArrow s msg)) < render_http_parse_full_below ->
+  http_status_of_error EArrow s msg = status_code s.
 Proof.
-  intros s msg Hs Hlen. rewrite (http_json_short _ _ Hlen), http_text_always_200.
-  destruct s; vm_compute; try discriminate. contradiction.
+  intros s msg Hlen. unfold http_status_of_error.
+  set (out := render_error EArrow s msg) in *.
+  assert (Hout : out = (ar_head ++ json_string msg ++ [44;34;114;101;115;117;108;116;115;34;58;91;93;44;34])
+                       ++ (status_word ++ [34;58] ++ dec_of_N (status_code s) ++ [125; 10])).
+  { unfold out, render_error, ar_results_status, status_word. rewrite <- !app_assoc. reflexivity. }
+  destruct out as [|c r] eqn:Eo; [destruct (ar_head ++ json_string msg ++ _) in Hout; discriminate|].
+  assert (Hc : c = 123) by (unfold ar_head in Hout; cbn [app] in Hout; inversion Hout; reflexivity). subst c.
+  cbn [N.eqb Pos.eqb negb].
+  apply N.ltb_lt in Hlen. rewrite Hlen. unfold render_http_sniff_window.
+  rewrite firstn_length_all. rewrite Hout at 1 2.
+  rewrite has_window_app; [|reflexivity|rewrite app_length; unfold status_word; cbn [length]; lia|discriminate
+                          |rewrite (app_length _ (status_word ++ _)), (app_length status_word); unfold status_word; cbn [length]; lia].
+  cbn [negb]. destruct s; vm_compute; reflexivity.
 Qed.
 
-(** KnownClass of the error clause ([http_known]): any status other than 200.  Outside it all encodings get 200. *)
+(** Outside the remaining known class — the error bodies stay below the full-parse limit — the
+    dispatcher answers every encoding of an error with the error's own status. *)
+Theorem http_status_correct_outside_known : forall s msg,
+  N.of_nat (length (render_error EJson s msg)) < render_http_parse_full_below ->
+  N.of_nat (length (render_error EArrow s msg)) < render_http_parse_full_below ->
+  http_status_of_error EJson s msg = status_code s /\
+  http_status_of_error EText s msg = status_code s /\
+  http_status_of_error EArrow s msg = status_code s.
+Proof.
+  intros s msg Hj Ha. split; [apply http_json_short; exact Hj|]. split; [apply http_text_status_correct|apply http_arrow_short; exact Ha].
+Qed.
 
 Lemma http_ok_always_200 : forall e msg, http_status_of_error e StOk msg = 200.
 Proof.
-  intros e msg. unfold http_status_of_error.
-  destruct (render_error e StOk msg) as [|c r]; [reflexivity|].
-  destruct (negb (c =? 123)); [reflexivity|].
-  match goal with |- context [if ?a then _ else _] => destruct a end; [reflexivity|].
-  match goal with |- context [if ?a then _ else _] => destruct a end; reflexivity.
+  intros e msg. destruct e; [| apply http_text_status_correct |]; unfold http_status_of_error, render_error.
+  - unfold js_head. cbn [app N.eqb Pos.eqb negb].
+    repeat match goal with |- context [if ?a then _ else _] => destruct a end; reflexivity.
+  - unfold ar_head. cbn [app N.eqb Pos.eqb negb].
+    repeat match goal with |- context [if ?a then _ else _] => destruct a end; reflexivity.
 Qed.
 
+(** The claim is still FALSE for long error messages: a 400 whose message has 460 bytes gives a JSON
+    (and Arrow) body of more than 500 bytes, of which only the first 200 are parsed — HTTP 200 —
+    while the text rendering of the same error is answered with 400. *)
+Definition long_msg : bytes := repeat 101 460.
+Theorem http_status_same_refuted :
+  http_status_same StBadRequest long_msg = false /\
+  http_status_of_error EJson StBadRequest long_msg = 200 /\
+  http_status_of_error EArrow StBadRequest long_msg = 200 /\
+  http_status_of_error EText StBadRequest long_msg = 400 /\
+  http_known StBadRequest long_msg = true.
+Proof. vm_compute. repeat split; reflexivity. Qed.
+
+(** Outside the known class all three encodings of an error are answered with the same status. *)
 Theorem http_status_outside_known : forall s msg,
-  http_known s = false -> http_status_same s msg = true.
+  http_known s msg = false -> http_status_same s msg = true.
 Proof.
-  intros s msg Hs. destruct s; try discriminate. unfold http_status_same.
-  rewrite !http_ok_always_200. reflexivity.
+  intros s msg Hk. unfold http_status_same.
+  assert (Hall : http_status_of_error EJson s msg = status_code s /\
+                 http_status_of_error EText s msg = status_code s /\
+                 http_status_of_error EArrow s msg = status_code s).
+  { destruct s; try (cbn [http_known] in Hk; apply orb_false_iff in Hk; destruct Hk as [Hj Ha];
+                     apply N.leb_gt in Hj; apply N.leb_gt in Ha; apply http_status_correct_outside_known; assumption).
+    rewrite !http_ok_always_200. repeat split; reflexivity. }
+  destruct Hall as [-> [-> ->]]. rewrite N.eqb_refl. reflexivity.
 Qed.
+
+Example http_status_outside_known_sat :
+  http_known StNotFound [110;111;32;115;117;99;104;32;116;121;112;101] = false /\
+  http_status_of_error EArrow StNotFound [110;111;32;115;117;99;104;32;116;121;112;101] = 404 /\
+  http_status_of_error EText StBadRequest [104;105] = 400.
+Proof. vm_compute. repeat split; reflexivity. Qed.
